@@ -139,6 +139,12 @@ func AddressingCorpus() []*Scenario {
 			&Scenario{Name: "addr/send-shared-inbox-" + sh.name, Kind: ap.Both, Entry: "Send", URL: outbox(Alice),
 				Body: Doc("Create", "", "actor", Alice, "to", sh.to, "object", Emb("Note", "", "content", "x")), Tweak: shared(sh.sharers...)})
 	}
+	// outbox: the sender among its own recipients while the application knows an inbox for the sender itself
+	for _, to := range []L{{Alice, Carol}, {Carol, Alice}, {Alice}} {
+		to := to
+		s = append(s, &Scenario{Name: fmt.Sprintf("addr/out-self-recipient-with-stored-inbox-%d", len(s)), Kind: ap.Both, Entry: "PostOutbox", URL: outbox(Alice),
+			Body: Doc("Note", "", "content", "x", "to", to, "bcc", Alice), Tweak: func(a *ap.App) { a.StoredInbox[Alice] = true }})
+	}
 	add("out-like-actor-object", "PostOutbox", outbox(Alice), ap.Both, Doc("Like", "", "actor", Alice, "object", L{Alice, RNote}, "to", Alice))
 	return s
 }
